@@ -3,6 +3,7 @@ package props
 import (
 	"bytes"
 	"fmt"
+	"io"
 	"strings"
 	"text/scanner"
 
@@ -244,11 +245,16 @@ func c04Child(c *mon.Child) {
 			var lerr error
 			p, pv, st := mon.Guard(func() {
 				var lx lexer.Lexer
-				switch ii % 3 {
+				switch ii % 4 {
 				case 0:
 					lx, lerr = def.LexString(fname, in)
 				case 1:
 					lx, lerr = def.Lex(fname, strings.NewReader(in))
+				case 3:
+					// a reader the caller has already read a header from: lexing starts where the reader stands
+					rd := strings.NewReader("header line\n" + in)
+					io.CopyN(io.Discard, rd, int64(len("header line\n")))
+					lx, lerr = def.Lex(fname, rd)
 				default:
 					// a reader that has a name of its own: the caller's filename still wins
 					lx, lerr = def.Lex(fname, namedReader{strings.NewReader(in), "reader-name.txt"})
@@ -315,8 +321,10 @@ func c04Child(c *mon.Child) {
 				how = "lexer.LexBytes"
 				lx = lexer.LexBytes(fname, []byte(in))
 			case 3:
-				how = "lexer.Lex"
-				lx = lexer.Lex(fname, bytes.NewReader([]byte(in)))
+				how = "lexer.Lex (reader already read from)"
+				rd := bytes.NewReader([]byte("#!header\n" + in))
+				io.CopyN(io.Discard, rd, int64(len("#!header\n")))
+				lx = lexer.Lex(fname, rd)
 			case 4:
 				how = "NewTextScannerLexer(comments kept).Lex"
 				lx, lerr = custom.Lex(fname, strings.NewReader(in))
